@@ -24,16 +24,20 @@ const (
 	KNested // struct{ X int `…:"x,<value options>"` }
 	KSlice  // []int
 	KMap    // map[string]int
+	KSliceS // []string (appended last: the enumeration of the older kinds keeps its order)
+	KSliceB // []bool
 	numKinds
 )
 
-var kindNames = [...]string{"int", "int8", "uint", "float64", "string", "bool", "*int", "*string", "struct{X int}", "[]int", "map[string]int"}
+var kindNames = [...]string{"int", "int8", "uint", "float64", "string", "bool", "*int", "*string", "struct{X int}", "[]int", "map[string]int", "[]string", "[]bool"}
 
 func (k Kind) String() string { return kindNames[k] }
 func (k Kind) numeric() bool  { return k == KInt || k == KInt8 || k == KUint || k == KFloat || k == KPInt }
 func (k Kind) integer() bool  { return k == KInt || k == KInt8 || k == KUint || k == KPInt }
 func (k Kind) stringy() bool  { return k == KString || k == KPString }
 func (k Kind) scalar() bool   { return k <= KPString }
+func (k Kind) slice() bool    { return k == KSlice || k == KSliceS || k == KSliceB }
+func (k Kind) refKind() bool  { return k.pointer() || k == KNested || k == KMap || k.slice() }
 func (k Kind) pointer() bool  { return k == KPInt || k == KPString }
 
 // optional modes
@@ -194,6 +198,10 @@ func goType(f Field, keys []string) reflect.Type {
 		return reflect.SliceOf(tInt)
 	case KMap:
 		return reflect.MapOf(tString, tInt)
+	case KSliceS:
+		return reflect.SliceOf(tString)
+	case KSliceB:
+		return reflect.SliceOf(tBool)
 	}
 	panic("bad kind")
 }
@@ -208,12 +216,50 @@ func tagKeysFor(f Field) []string {
 	return allTagKeys
 }
 
-func buildType(fs []Field) reflect.Type {
+func buildType(fs []Field) reflect.Type { return buildTypeX(fs, false) }
+
+// buildSiblingType: a distinct reflect.Type with the same field names, field types and tag texts
+// under every key the unmarshalers read (an extra, unread tag key tells the two types apart; a
+// nested struct type is shared by both).
+func buildSiblingType(fs []Field) reflect.Type { return buildTypeX(fs, true) }
+
+func buildTypeX(fs []Field, sibling bool) reflect.Type { return buildSplitType(fs, nil, "", sibling) }
+
+// Split types (history shards only): the field's options differ between two groups of tag keys —
+// group A = json, key (entries json / key / conf), group B = form, path, header. fsEff are the
+// specs under the key group of effEntry, fsAlt those under the other group; kinds are equal.
+var (
+	keysA = []string{"json", "key"}
+	keysB = []string{"form", "path", "header"}
+)
+
+func groupB(entry string) bool { return entry == EFORM || entry == EPATH || entry == EHDR }
+
+func splitTags(effEntry string, eff, alt string) reflect.StructTag {
+	a, b := eff, alt
+	if groupB(effEntry) {
+		a, b = alt, eff
+	}
+	return multiTag(keysA, a) + " " + multiTag(keysB, b)
+}
+
+func buildSplitType(fsEff, fsAlt []Field, effEntry string, sibling bool) reflect.Type {
 	var kb strings.Builder
-	sfs := make([]reflect.StructField, len(fs))
-	for i, f := range fs {
-		keys := tagKeysFor(f)
-		sfs[i] = reflect.StructField{Name: goName(i), Type: goType(f, keys), Tag: multiTag(keys, tagValue(fs, i))}
+	sfs := make([]reflect.StructField, len(fsEff))
+	for i, f := range fsEff {
+		if fsAlt == nil {
+			keys := tagKeysFor(f)
+			sfs[i] = reflect.StructField{Name: goName(i), Type: goType(f, keys), Tag: multiTag(keys, tagValue(fsEff, i))}
+		} else {
+			ft := goType(f, allTagKeys)
+			if f.Kind == KNested {
+				ft = reflect.StructOf([]reflect.StructField{{Name: "X", Type: tInt, Tag: splitTags(effEntry, innerTagValue(f), innerTagValue(fsAlt[i]))}})
+			}
+			sfs[i] = reflect.StructField{Name: goName(i), Type: ft, Tag: splitTags(effEntry, tagValue(fsEff, i), tagValue(fsAlt, i))}
+		}
+		if sibling {
+			sfs[i].Tag += ` verif:"sibling"`
+		}
 		kb.WriteString(sfs[i].Type.String())
 		kb.WriteByte(' ')
 		kb.WriteString(string(sfs[i].Tag))
@@ -228,6 +274,26 @@ func buildType(fs []Field) reflect.Type {
 	t := reflect.StructOf(sfs)
 	typeMemo[k] = t
 	return t
+}
+
+// describeSplitType renders a split type with both tag groups.
+func describeSplitType(fsEff, fsAlt []Field, effEntry string) string {
+	var b strings.Builder
+	b.WriteString("struct{ ")
+	for i, f := range fsEff {
+		a, bb := fsEff, fsAlt
+		if groupB(effEntry) {
+			a, bb = fsAlt, fsEff
+		}
+		if f.Kind == KNested {
+			fmt.Fprintf(&b, "%s struct{ X int `json|key:\"%s\" form|path|header:\"%s\"` } `json|key:\"%s\" form|path|header:\"%s\"`; ",
+				goName(i), innerTagValue(a[i]), innerTagValue(bb[i]), tagValue(a, i), tagValue(bb, i))
+		} else {
+			fmt.Fprintf(&b, "%s %s `json|key:\"%s\" form|path|header:\"%s\"`; ", goName(i), f.Kind, tagValue(a, i), tagValue(bb, i))
+		}
+	}
+	b.WriteString("}")
+	return b.String()
 }
 
 // describeType renders the struct type the way a user would write it (for replays and reports).
@@ -292,7 +358,13 @@ func valueSpecs(k Kind, thorough bool) []Field {
 		strs = []bool{false, true}
 	case k == KSlice:
 		defs = append(defs, "[1,2]")
-	case k == KMap:
+	case k == KSliceS:
+		// [a,b] is the documented form; [1,2] is the same default text a []int field carries (one
+		// process-wide default cache entry serves both element types)
+		defs = append(defs, "[a,b]", "[1,2]", "[true,false]")
+	case k == KSliceB:
+		defs = append(defs, "[true,false]") // the same text as on a []string field
+	case k == KMap: // the tag grammar has no default for maps (`default=` on a map is rejected when the field is absent)
 	}
 	for _, d := range defs {
 		for _, r := range rngs {
@@ -356,6 +428,7 @@ func siblingSpecs(self, p int, thorough bool) []Field {
 			Field{Kind: KFloat, Rng: 3, Def: "3", Opt: OptDep, Dep: p},
 			Field{Kind: KSlice, Rng: -1, Opt: OptPlain},
 			Field{Kind: KMap, Rng: -1},
+			Field{Kind: KSliceS, Rng: -1, Def: "[a,b]"},
 		)
 	}
 	return out
